@@ -1,18 +1,421 @@
 import Afkak.Monitor.C10
+import AfkakProofs.BrokerClient.SimC10
+import AfkakProofs.BrokerClient.MonC10
+import AfkakProofs.BrokerClient.SimC06
+import AfkakProofs.BrokerClient.MonC06
 /-!
-# C10 — after a connection drop, unanswered requests are re-sent once, in order
+# C10 — after a connection drop, unanswered requests are re-sent once, in order; reconnect, back-off, close
 Property theorems only; helper lemmas live in `AfkakProofs/BrokerClient/`.
+
+`Monitor.C10.accepts` is the decidable predicate the driver evaluates on traces recorded from the real
+`_KafkaBrokerClient`; `C10_monitor_sound` proves it of every trace of the model, for every retry policy.
+"Fired" below is `Monitor.C06.firedOf`: the serials whose Deferred has fired (answered, cancelled, failed,
+or written without expecting a reply) — by `C06_exactly_once` the complement of "still pending".
 -/
 namespace Afkak.Props.C10
-open Afkak.BrokerClient
+open Afkak.Frame Afkak.BrokerClient Afkak.Monitor.C10
 
-/-- placeholder while the proofs are being built -/
-theorem C10_pop_order : Afkak.Consts.closePopLast = true := by decide
+/-- The C10 monitor the driver evaluates on the implementation's traces accepts every trace of the
+    model — any event list, ANY retry policy, any broker address. -/
+theorem C10_monitor_sound (cfg : Cfg) (host port : Nat) (evs : List Ev) :
+    accepts cfg.policy host port (trace cfg (St.init host port) evs) = true := by
+  simp only [accepts]
+  rw [← abs10_init host port, sim10_run cfg _ evs (sinv_init host port)]
+  rfl
+
+/-- Once per connection, for ANY accepted trace: no (connection, serial) pair is written twice. -/
+theorem C10_once_per_conn_of_accepted (policy : Nat → Rat) (host port : Nat) (tr : List (Ev × List Ob))
+    (h : accepts policy host port tr = true) : (writtenOf tr).Nodup := by
+  simp only [accepts, Option.isSome_iff_exists] at h
+  obtain ⟨m, hm⟩ := h
+  have := (minv_run policy tr _ m [] (minv_init host port) hm).wNodup
+  simpa using this
+
+/-- No request is written twice on one connection, whatever the event list. -/
+theorem C10_once_per_conn (cfg : Cfg) (host port : Nat) (evs : List Ev) :
+    (writtenOf (trace cfg (St.init host port) evs)).Nodup :=
+  C10_once_per_conn_of_accepted cfg.policy host port _ (C10_monitor_sound cfg host port evs)
+
+/-- Never re-sent: a request whose Deferred has fired (answered, cancelled, failed, or written
+    without expecting a reply) is never written again — in no later step, on no connection. -/
+theorem C10_never_resent (cfg : Cfg) (host port : Nat) (evs : List Ev) (e : Ev) :
+    let s := run cfg (St.init host port) evs
+    ∀ w ∈ writes (step cfg s e).2, w.2.1 ∉ Monitor.C06.firedOf (trace cfg (St.init host port) evs) := by
+  intro s w hw
+  have hsi := sinv_run cfg (St.init host port) evs (sinv_init host port)
+  have h10 := sim10_step cfg s e hsi
+  have hrun10 := sim10_run cfg (St.init host port) evs (sinv_init host port)
+  rw [abs10_init] at hrun10
+  have hm10 := minv_run cfg.policy _ _ _ [] (minv_init host port) hrun10
+  have hfrom := (minv_step cfg.policy _ _ _ e _ hm10 h10).2 w hw
+  have hrun06 := sim06_run cfg (St.init host port) evs (sinv_init host port)
+  rw [abs06_init] at hrun06
+  have hm06 := Monitor.C06.minv_run _ Monitor.C06.MSt.init _ [] Monitor.C06.minv_init hrun06
+  simp only [List.nil_append] at hm06
+  intro hF
+  rcases hfrom with hk | ⟨p, hp, hk⟩
+  · have := hm06.firedLt _ hF
+    rw [hk] at this
+    exact Nat.lt_irrefl _ this
+  · simp only [abs10, absPend, List.mem_map, List.mem_filter] at hp
+    obtain ⟨r, ⟨hr, hc⟩, rfl⟩ := hp
+    have hl : proj r ∈ (abs06 s).live := by
+      simp only [abs06, absLive, List.mem_map, List.mem_filter]
+      exact ⟨r, ⟨hr, hc⟩, rfl⟩
+    have := hm06.disj _ hl
+    simp only [proj] at this
+    rw [← hk] at hF
+    exact this hF
+
+/-- Resend exact: when a connection comes up (any reachable state with a pending attempt), what is
+    written on it is exactly the table, in table order; the table is then: every request made so far
+    whose Deferred has not fired — i.e. the unanswered, uncancelled, reply-expecting requests of the
+    previous connection plus the later ones — in issue order (ascending serial), each once, none
+    cancelled, none marked sent. -/
+theorem C10_resend_exact (cfg : Cfg) (host port : Nat) (evs : List Ev) :
+    let s := run cfg (St.init host port) evs
+    s.connector = .attempt →
+      writes (step cfg s .connOk).2 = (if s.wfail then [] else s.reqs.map fun r => (s.nconn, r.serial, r.id, false)) ∧
+      s.reqs.Pairwise (fun a b => a.serial < b.serial) ∧
+      (∀ r ∈ s.reqs, r.cancelled = false ∧ r.sent = false) ∧
+      (∀ k, (∃ r ∈ s.reqs, r.serial = k) ↔ (k < s.nmake ∧ k ∉ Monitor.C06.firedOf (trace cfg (St.init host port) evs))) := by
+  intro s hatt
+  have h : SInv s := sinv_run cfg (St.init host port) evs (sinv_init host port)
+  have hp : s.proto = none := by
+    cases hq : s.proto with
+    | none => rfl
+    | some c => have := h.connConnector (by simp [hq]); simp_all
+  have hcl : s.closed = false := by
+    cases hc : s.closed
+    · rfl
+    · have := h.closedConnector hc; simp_all
+  have hun : ∀ r ∈ s.reqs, r.sent = false := h.discUnsent hp
+  have hunc : ∀ r ∈ s.reqs, r.cancelled = false := by
+    intro r hr
+    cases hc : r.cancelled
+    · rfl
+    · have := h.cancSent r hr hc; have := hun r hr; simp_all
+  refine ⟨?_, h.serials, fun r hr => ⟨hunc r hr, hun r hr⟩, ?_⟩
+  · simp only [step, hatt, if_true, hcl, Bool.false_eq_true, if_false, sendQueued]
+    exact (sendQueued_proj _ s.nconn s.reqs hun rfl).1
+  · intro k
+    have hrun06 := sim06_run cfg (St.init host port) evs (sinv_init host port)
+    rw [abs06_init] at hrun06
+    have hm06' := Monitor.C06.minv_run _ Monitor.C06.MSt.init _ [] Monitor.C06.minv_init hrun06
+    simp only [List.nil_append] at hm06'
+    have hm06 : Monitor.C06.MInv (abs06 s) (Monitor.C06.firedOf (trace cfg (St.init host port) evs)) := hm06'
+    have hlive : ∀ r, r ∈ s.reqs → proj r ∈ (abs06 s).live := by
+      intro r hr
+      simp only [abs06, absLive, List.mem_map, List.mem_filter]
+      exact ⟨r, ⟨hr, by simp [hunc r hr]⟩, rfl⟩
+    constructor
+    · rintro ⟨r, hr, rfl⟩
+      exact ⟨h.serialLt r hr, hm06.disj _ (hlive r hr)⟩
+    · rintro ⟨hk, hF⟩
+      rcases hm06.cover k hk with ⟨l, hl, rfl⟩ | h'
+      · simp only [abs06, absLive, List.mem_map, List.mem_filter] at hl
+        obtain ⟨r, ⟨hr, _⟩, rfl⟩ := hl
+        exact ⟨r, hr, rfl⟩
+      · exact absurd h' hF
+
+
+/-- Reconnect iff: when the connection is lost (any reachable state) a connection attempt to the
+    current address follows iff the client is not closed and some request is still pending; an idle
+    client (no connection, no attempt, no timer) has an empty table and connects on the next request;
+    a request made while connected, connecting or backing off starts no second attempt. -/
+theorem C10_reconnect_iff (cfg : Cfg) (host port : Nat) (evs : List Ev) :
+    let s := run cfg (St.init host port) evs
+    (s.proto.isSome → connects (step cfg s .lost).2 =
+        (if !s.closed && s.reqs.any (fun r => !r.cancelled) then [(s.host, s.port)] else [])) ∧
+    (s.proto = none → s.connector = .none → s.closed = false →
+        s.reqs = [] ∧ ∀ id ex, connects (step cfg s (.make id ex)).2 = [(s.host, s.port)]) ∧
+    (s.proto.isSome ∨ s.connector ≠ .none → ∀ id ex, connects (step cfg s (.make id ex)).2 = []) := by
+  intro s
+  have h : SInv s := sinv_run cfg (St.init host port) evs (sinv_init host port)
+  refine ⟨?_, ?_, ?_⟩
+  · intro hp
+    obtain ⟨c, hc⟩ := Option.isSome_iff_exists.mp hp
+    simp only [step, hc, lostStep, connect_, tryConnect]
+    by_cases hcl : s.closed = true
+    · simp [hcl, connects]
+    · have hcl' : s.closed = false := by simpa using hcl
+      by_cases he : s.reqs.any (fun r => !r.cancelled) = true
+      · have : ((s.reqs.filter (fun r => !r.cancelled)).map (fun r => { r with sent := false })).isEmpty = false := by
+          simp only [List.any_eq_true] at he
+          obtain ⟨r, hr, hrc⟩ := he
+          cases hl : (s.reqs.filter (fun r => !r.cancelled)) with
+          | nil =>
+            have : r ∈ s.reqs.filter (fun r => !r.cancelled) := List.mem_filter.mpr ⟨hr, hrc⟩
+            rw [hl] at this; simp at this
+          | cons a l => simp
+        simp [hcl', he, this, connects]
+      · have he' : s.reqs.any (fun r => !r.cancelled) = false := by simpa using he
+        have : ((s.reqs.filter (fun r => !r.cancelled)).map (fun r => { r with sent := false })).isEmpty = true := by
+          simp only [List.isEmpty_iff, List.map_eq_nil_iff, List.filter_eq_nil_iff]
+          intro r hr
+          simp only [List.any_eq_false] at he'
+          simpa using he' r hr
+        simp [hcl', he', this, connects]
+  · intro hp hco hcl
+    have he := h.idleEmpty hp hco hcl
+    refine ⟨he, ?_⟩
+    intro id ex
+    simp [step, he, hcl, hp, hco, connect_, tryConnect, connects]
+  · intro hor id ex
+    simp only [step]
+    split
+    · simp [connects]
+    · split
+      · simp [connects]
+      · split
+        · simp only [sendObs]
+          split <;> (try split) <;> (try split) <;> simp [connects]
+        · rename_i hp
+          rcases hor with hor | hor
+          · simp [hp] at hor
+          · simp [hor, connects]
+
+/-- Back-off, for EVERY retry policy: a failed attempt arms a timer of `policy (failures + 1)` and
+    counts the failure; the next attempt is made by the first clock advance that reaches the due
+    time, and by none before it, to the address current at that moment; a successful connection
+    and the start of a fresh connection loop (first request of an idle client, a lost connection
+    with requests pending) reset the count. -/
+theorem C10_backoff (cfg : Cfg) (host port : Nat) (evs : List Ev) :
+    let s := run cfg (St.init host port) evs
+    (s.connector = .attempt →
+        step cfg s .connFail = ({ s with failures := s.failures + 1, connector := .backoff (s.now + cfg.policy (s.failures + 1)) },
+                                [.setTimer (cfg.policy (s.failures + 1))])) ∧
+    (∀ due dt, s.connector = .backoff due → 0 ≤ dt →
+        step cfg s (.advance dt) = (if due ≤ s.now + dt then ({ s with now := s.now + dt, connector := .attempt }, [.connect s.host s.port])
+                                    else ({ s with now := s.now + dt }, []))) ∧
+    (s.connector = .attempt → (step cfg s .connOk).1.failures = 0) ∧
+    (∀ e, (Ob.connect s.host s.port) ∈ (step cfg s e).2 → (∀ dt, e ≠ .advance dt) → (step cfg s e).1.failures = 0) := by
+  intro s
+  have h : SInv s := sinv_run cfg (St.init host port) evs (sinv_init host port)
+  refine ⟨?_, ?_, ?_, ?_⟩
+  · intro hatt
+    have hcl : s.closed = false := by
+      cases hc : s.closed
+      · rfl
+      · have := h.closedConnector hc; simp_all
+    simp [step, hatt, hcl]
+  · intro due dt hco hdt
+    have : ¬ dt < 0 := by grind
+    simp only [step, this, if_false, hco, tryConnect]
+  · intro hatt
+    simp only [step, hatt, if_true, sendQueued]
+    split <;> rfl
+  · intro e hm hne
+    cases e with
+    | make id ex =>
+      simp only [step] at hm ⊢
+      split at hm
+      · simp at hm
+      · split at hm
+        · simp at hm
+        · split at hm
+          · simp only [sendObs] at hm
+            split at hm <;> (try split at hm) <;> (try split at hm) <;> simp at hm
+          · rename_i hd hc _ hp
+            simp only [hd, hc, hp, if_false]
+            split at hm
+            · rename_i hco; simp [hco, connect_, tryConnect]
+            · simp at hm
+    | cancel id =>
+      simp only [step] at hm
+      split at hm <;> simp at hm
+    | connOk =>
+      simp only [step] at hm ⊢
+      split at hm
+      · rename_i hatt
+        simp only [hatt, if_true, sendQueued]
+        split <;> rfl
+      · simp at hm
+    | connFail =>
+      simp only [step] at hm
+      split at hm <;> (try split at hm) <;> simp at hm
+    | advance dt => exact absurd rfl (hne dt)
+    | bytesIn chunk =>
+      simp only [step] at hm ⊢
+      split at hm
+      · simp at hm
+      · split at hm
+        · simp at hm
+        · rename_i c hp hl
+          simp only [hp, hl, if_false]
+          have hobs := handleFrames_proj (feed s.rbuf chunk).frames s h.serials
+          have hnc : Ob.connect s.host s.port ∉ (handleFrames s (feed s.rbuf chunk).frames).2.1 := by
+            intro hx
+            rcases hobs.2.2.2.2.2 _ hx with ⟨_, _, _, he⟩ | ⟨_, he⟩ | he <;> simp at he
+          split at hm
+          · rename_i hr
+            simp only [hr, if_true]
+            rcases List.mem_append.mp hm with hm | hm
+            · exact absurd hm hnc
+            · simp only [lostStep, connect_, tryConnect] at hm ⊢
+              split at hm
+              · simp at hm
+              · split at hm
+                · simp at hm
+                · rename_i h1 h2
+                  simp [h1, h2]
+          · split at hm
+            · rcases List.mem_append.mp hm with hm | hm
+              · exact absurd hm hnc
+              · simp at hm
+            · exact absurd hm hnc
+    | lost =>
+      simp only [step] at hm ⊢
+      split at hm
+      · simp at hm
+      · simp only [lostStep, connect_, tryConnect] at hm ⊢
+        split at hm
+        · simp at hm
+        · split at hm
+          · simp at hm
+          · rename_i h1 h2
+            simp [h1, h2]
+    | close =>
+      simp only [step] at hm
+      split at hm
+      · simp at hm
+      · split at hm
+        · simp at hm
+        · split at hm <;> simp at hm
+    | disconnect =>
+      simp only [step] at hm
+      split at hm <;> simp at hm
+    | updateMetadata a b => simp [step] at hm
+    | writeFail b => simp [step] at hm
+
+
+/-- Once closed, always closed, and every later step is quiet: no `connect`, no `write`, no timer. -/
+theorem C10_closed_quiet (cfg : Cfg) (s : St) (h : SInv s) (hc : s.closed = true) (e : Ev) :
+    quiet (step cfg s e).2 = true ∧ (step cfg s e).1.closed = true := by
+  have hr := h.closedEmpty hc
+  have hco := h.closedConnector hc
+  cases e with
+  | make id ex => simp [step, hr, hc, quiet, writes, connects, timers]
+  | cancel id => simp [step, hr, hc, quiet, writes, connects, timers]
+  | connOk => rcases hco with hco | hco <;> simp [step, hco, hc, quiet, writes, connects, timers]
+  | connFail => rcases hco with hco | hco <;> simp [step, hco, hc, quiet, writes, connects, timers]
+  | advance dt =>
+    simp only [step]
+    split
+    · simp [hc, quiet, writes, connects, timers]
+    · rcases hco with hco | hco <;> simp [hco, hc, quiet, writes, connects, timers]
+  | bytesIn chunk =>
+    simp only [step]
+    split
+    · simp [hc, quiet, writes, connects, timers]
+    · rename_i c hp
+      have := h.closedLosing hc (by simp [hp])
+      simp [this, hc, quiet, writes, connects, timers]
+  | lost =>
+    simp only [step]
+    split
+    · simp [hc, quiet, writes, connects, timers]
+    · simp [lostStep, hc, quiet, writes, connects, timers]
+  | close => simp [step, hc, quiet, writes, connects, timers]
+  | disconnect =>
+    simp only [step]
+    split <;> simp [hc, quiet, writes, connects, timers]
+  | updateMetadata a b => simp [step, hc, quiet, writes, connects, timers]
+  | writeFail b => simp [step, hc, quiet, writes, connects, timers]
+
+/-- Close: in any reachable, not yet closed state `close()` fires every pending uncancelled
+    request with `ClientError`, cancels the connection attempt or the back-off timer, drops the
+    connection, leaves the table empty — and whatever happens afterwards, no `connect`, `write` or
+    timer observation ever follows. -/
+theorem C10_close (cfg : Cfg) (host port : Nat) (evs : List Ev) :
+    let s := run cfg (St.init host port) evs
+    s.closed = false →
+      (∀ r ∈ s.reqs, r.cancelled = false → Ob.fire r.serial r.id (.err .clientError) ∈ (step cfg s .close).2) ∧
+      (s.connector = .attempt → Ob.cancelConnect ∈ (step cfg s .close).2) ∧
+      (∀ d, s.connector = .backoff d → Ob.cancelTimer ∈ (step cfg s .close).2) ∧
+      (∀ c, s.proto = some c → Ob.lose c ∈ (step cfg s .close).2) ∧
+      (step cfg s .close).1.reqs = [] ∧ (step cfg s .close).1.closed = true ∧
+      (∀ evs', ∀ t ∈ trace cfg (step cfg s .close).1 evs', quiet t.2 = true) := by
+  intro s hcl
+  have h : SInv s := sinv_run cfg (St.init host port) evs (sinv_init host port)
+  have hfire : ∀ r ∈ s.reqs, r.cancelled = false → ∀ (pre post : List Ob),
+      Ob.fire r.serial r.id (.err .clientError) ∈ pre ++ ((if Afkak.Consts.closePopLast then s.reqs.reverse else s.reqs).filter
+        (fun r => !r.cancelled)).map (fun r => Ob.fire r.serial r.id (.err .clientError)) ++ post := by
+    intro r hr hc pre post
+    apply List.mem_append.mpr; left; apply List.mem_append.mpr; right
+    apply List.mem_map.mpr
+    refine ⟨r, List.mem_filter.mpr ⟨?_, by simp [hc]⟩, rfl⟩
+    split <;> simp [hr]
+  have hclosed : (step cfg s .close).1.closed = true := by
+    simp only [step, hcl, Bool.false_eq_true, if_false]
+    split <;> (try split) <;> rfl
+  refine ⟨?_, ?_, ?_, ?_, ?_, hclosed, ?_⟩
+  · intro r hr hc
+    simp only [step, hcl, Bool.false_eq_true, if_false]
+    split
+    · rename_i c _
+      have := hfire r hr hc [.lose c] []
+      simpa using this
+    · split
+      · have := hfire r hr hc [.cancelConnect] [.down]; simpa using this
+      · have := hfire r hr hc [.cancelTimer] [.down]; simpa using this
+      · have := hfire r hr hc [] [.down]; simpa using this
+      · have := hfire r hr hc [] [.down]; simpa using this
+  · intro hatt
+    have hp : s.proto = none := by
+      cases hq : s.proto with
+      | none => rfl
+      | some c => have := h.connConnector (by simp [hq]); simp_all
+    simp [step, hcl, hp, hatt]
+  · intro d hd
+    have hp : s.proto = none := by
+      cases hq : s.proto with
+      | none => rfl
+      | some c => have := h.connConnector (by simp [hq]); simp_all
+    simp [step, hcl, hp, hd]
+  · intro c hp
+    simp [step, hcl, hp]
+  · simp only [step, hcl, Bool.false_eq_true, if_false]
+    split <;> (try split) <;> rfl
+  · intro evs'
+    have hs' : SInv (step cfg s .close).1 := sinv_step cfg s .close h
+    generalize (step cfg s .close).1 = s' at hs' hclosed
+    induction evs' generalizing s' with
+    | nil => simp [trace]
+    | cons e es ih =>
+      intro t ht
+      simp only [trace, List.mem_cons] at ht
+      obtain ⟨q1, q2⟩ := C10_closed_quiet cfg s' hs' hclosed e
+      rcases ht with rfl | ht
+      · exact q1
+      · exact ih _ (sinv_step cfg s' e hs') q2 t ht
+
+/-! Non-vacuity: a run with a drop, a resend of exactly the unanswered uncancelled requests in
+issue order, two failed attempts with back-off, and a close. -/
+def demo : List Ev :=
+  [.make 1 true, .make 2 true, .make 3 true, .make 4 false, .connOk, .bytesIn [0, 0, 0, 4, 0, 0, 0, 2],
+   .cancel 3, .make 5 true, .lost, .connFail, .advance 1, .connFail, .advance 1, .advance 1, .connOk, .close]
+example : (trace ⟨fun n => n⟩ (St.init 1 9092) demo).map (·.2) =
+    [[.connect 1 9092], [], [], [], [.write 0 0 1, .write 0 1 2, .write 0 2 3, .write 0 3 4, .fire 3 4 .none],
+     [.fire 1 2 (.ok [0, 0, 0, 2])], [.fire 2 3 (.err .cancelled)], [.write 0 4 5], [.connect 1 9092],
+     [.setTimer 1], [.connect 1 9092], [.setTimer 2], [], [.connect 1 9092], [.write 1 0 1, .write 1 4 5],
+     [.lose 1, .fire 4 5 (.err .clientError), .fire 0 1 (.err .clientError)]] := by
+  decide +kernel
+example : (run ⟨fun n => n⟩ (St.init 1 9092) (demo.take 14)).connector = .attempt := by decide +kernel
+example : (run ⟨fun n => n⟩ (St.init 1 9092) (demo.take 15)).closed = false := by decide +kernel
 
 end Afkak.Props.C10
 
 /- OBLIGATIONS
-C10_pop_order
+C10_monitor_sound
+C10_once_per_conn_of_accepted
+C10_once_per_conn
+C10_never_resent
+C10_resend_exact
+C10_reconnect_iff
+C10_backoff
+C10_closed_quiet
+C10_close
 -/
 /- OPEN_STATEMENTS
 -/
